@@ -293,6 +293,12 @@ Proof.
   - destruct (N.ltb_spec (mt_len t) (mt_cols t - width - (mt_cols t - width) / 2)); [lia | reflexivity].
 Qed.
 
+Lemma tab_site_ok st b : tab_sane st -> tab_site st b = Ok tt.
+Proof.
+  unfold tab_sane, tab_site. intros H. destruct (N.ltb_spec ISIZE_MAX (st_tab st)); [lia|].
+  rewrite andb_false_r. reflexivity.
+Qed.
+
 Lemma pad_tail (buf : mtext) (p : ph) (nw : option wide) :
   mt_ok buf ->
   oseq (match ph_width p with
@@ -304,13 +310,13 @@ Proof.
 Qed.
 
 Lemma placeholder_sites_ok st sn O i p :
-  StyleOK st -> snap_ok sn -> oracles_ok O -> part_ok (PPh p) ->
+  StyleOK st -> tab_sane st -> snap_ok sn -> oracles_ok O -> part_ok (PPh p) ->
   exists nw, placeholder_sites st sn O i p = Ok nw.
 Proof.
-  intros Hs [Hm Hpre] HO Hp. unfold placeholder_sites.
+  intros Hs Htab [Hm Hpre] HO Hp. unfold placeholder_sites.
   pose proof (HO i) as Hi.
   destruct (existsb (list_eqb N.eqb (ph_key p)) (st_keys st)).
-  { eexists. apply pad_tail. exact Hi. }
+  { rewrite tab_site_ok by exact Htab. cbn [oseq]. eexists. apply pad_tail. exact Hi. }
   destruct (key_is (ph_key p) KeyNames.wide_bar).
   { eexists. apply pad_tail. exact Hi. }
   destruct (key_is (ph_key p) KeyNames.bar).
@@ -320,9 +326,9 @@ Proof.
   destruct (key_is (ph_key p) KeyNames.wide_msg).
   { eexists. apply pad_tail. exact Hi. }
   destruct (key_is (ph_key p) KeyNames.msg).
-  { eexists. apply pad_tail. exact Hm. }
+  { rewrite tab_site_ok by exact Htab. cbn [oseq]. eexists. apply pad_tail. exact Hm. }
   destruct (key_is (ph_key p) KeyNames.prefix).
-  { eexists. apply pad_tail. exact Hpre. }
+  { rewrite tab_site_ok by exact Htab. cbn [oseq]. eexists. apply pad_tail. exact Hpre. }
   destruct (key_is (ph_key p) KeyNames.per_sec).
   { cbn [part_ok] in Hp. destruct (ph_width p) as [w|] eqn:Ew.
     - destruct (N.leb_spec U16 w); [lia|]. eexists.
@@ -332,34 +338,34 @@ Proof.
 Qed.
 
 Lemma push_line_sites_ok st sn O i wd tw :
-  StyleOK st -> snap_ok sn -> push_line_sites st sn O i wd tw = Ok tt.
+  StyleOK st -> tab_sane st -> snap_ok sn -> push_line_sites st sn O i wd tw = Ok tt.
 Proof.
-  intros Hs [Hm _]. unfold push_line_sites. destruct wd as [[|a]|]; [| |reflexivity].
+  intros Hs Htab [Hm _]. unfold push_line_sites. destruct wd as [[|a]|]; [| |reflexivity].
   - apply format_bar_ok; exact Hs.
-  - apply padded_sites_ok; exact Hm.
+  - rewrite tab_site_ok by exact Htab. cbn [oseq]. apply padded_sites_ok; exact Hm.
 Qed.
 
 Lemma walk_ok st sn O tw ps : forall i wd,
-  StyleOK st -> snap_ok sn -> oracles_ok O -> Forall part_ok ps ->
+  StyleOK st -> tab_sane st -> snap_ok sn -> oracles_ok O -> Forall part_ok ps ->
   exists wd', walk st sn O tw i ps wd = Ok wd'.
 Proof.
-  induction ps as [|p r IH]; intros i wd Hs Hn HO Hp; cbn [walk].
+  induction ps as [|p r IH]; intros i wd Hs Htab Hn HO Hp; cbn [walk].
   - eexists; reflexivity.
   - inversion Hp as [|? ? Hp1 Hpr]; subst. destruct p as [s|q|].
-    + apply IH; assumption.
-    + destruct (placeholder_sites_ok st sn O i q Hs Hn HO Hp1) as [nw E]. rewrite E.
+    + rewrite tab_site_ok by exact Htab. cbn [oseq]. apply IH; assumption.
+    + destruct (placeholder_sites_ok st sn O i q Hs Htab Hn HO Hp1) as [nw E]. rewrite E.
       apply IH; assumption.
     + rewrite push_line_sites_ok by assumption. cbn [oseq]. apply IH; assumption.
 Qed.
 
 (** format_state never reaches a panic site for a style that satisfies the invariant *)
 Theorem render_ok st sn tw O :
-  StyleOK st -> snap_ok sn -> oracles_ok O -> render_outcome st sn tw O = Ok tt.
+  StyleOK st -> tab_sane st -> snap_ok sn -> oracles_ok O -> render_outcome st sn tw O = Ok tt.
 Proof.
-  intros Hs Hn HO. unfold render_outcome.
+  intros Hs Htab Hn HO. unfold render_outcome.
   destruct Hs as (H1 & H2 & H3 & H4 & H5).
   assert (Hs : StyleOK st) by (repeat split; assumption).
-  destruct (walk_ok st sn O tw (st_parts st) 0%nat None Hs Hn HO H5) as [wd E]. rewrite E.
+  destruct (walk_ok st sn O tw (st_parts st) 0%nat None Hs Htab Hn HO H5) as [wd E]. rewrite E.
   destruct (o_cur_nonempty O); [|reflexivity].
   apply push_line_sites_ok; assumption.
 Qed.
@@ -416,28 +422,102 @@ Proof.
 Qed.
 
 Theorem draw_ok st sn tw th n bottom O :
-  StyleOK st -> snap_ok sn -> oracles_ok O ->
+  StyleOK st -> tab_sane st -> snap_ok sn -> oracles_ok O ->
   tw < U16 -> th < U16 -> n + U16 <= USIZE_MAX ->
   exists n', draw_outcome st sn tw th n bottom O = Ok n'.
 Proof.
-  intros Hs Hsn HO Htw Hth Hn. unfold draw_outcome. rewrite render_ok by assumption. cbn [oseq].
+  intros Hs Htab Hsn HO Htw Hth Hn. unfold draw_outcome. rewrite render_ok by assumption. cbn [oseq].
   destruct (frame_ok (o_lines O) tw th n bottom Htw Hth Hn) as [n' [E _]]. exists n'. exact E.
 Qed.
 
 (** * the main statements *)
+(* only OSetTab changes the tab width *)
+Lemma bstep_tab st o st' : builder_op o -> bstep st o = BOk st' -> st_tab st' = st_tab st.
+Proof.
+  intros Hb H. destruct o as [s|l|cl|s|k|w]; cbn [bstep builder_op] in *; try contradiction.
+  - destruct (nlen (map (fun c => [c]) s) <? 2); [discriminate|]. inversion H; reflexivity.
+  - destruct (nlen l <? 2); [discriminate|]. inversion H; reflexivity.
+  - destruct (nlen cl <? 2); [discriminate|]. destruct (width_of cl) as [w|]; [|discriminate].
+    destruct (w =? 0); [discriminate|]. inversion H; reflexivity.
+  - destruct (parse s); [|discriminate]. inversion H; reflexivity.
+  - inversion H; reflexivity.
+Qed.
+
+Lemma brun_idx_tab ops : forall i st j st',
+  Forall builder_op ops -> brun_idx i st ops = (j, BOk st') -> st_tab st' = st_tab st.
+Proof.
+  induction ops as [|o r IH]; intros i st j st' Hf H; cbn [brun_idx] in H.
+  - inversion H; reflexivity.
+  - inversion Hf as [|? ? Ho Hr]; subst.
+    destruct (bstep st o) as [s1| |] eqn:E; try (inversion H; fail).
+    rewrite (IH _ _ _ _ Hr H). exact (bstep_tab _ _ _ Ho E).
+Qed.
+
+Lemma construct_tab c st : construct c = BOk st -> st_tab st = DEFAULT_TAB_WIDTH.
+Proof.
+  assert (Hn : forall ps st0, new_style ps = BOk st0 -> st_tab st0 = DEFAULT_TAB_WIDTH).
+  { intros ps st0 H. unfold new_style in H. rewrite default_width in H. inversion H; reflexivity. }
+  destruct c as [| |t]; cbn [construct].
+  - destruct (parse DEFAULT_BAR_TEMPLATE); [apply Hn | discriminate].
+  - destruct (parse DEFAULT_SPINNER_TEMPLATE); [apply Hn | discriminate].
+  - destruct (parse t); [apply Hn | discriminate].
+Qed.
+
+(* a style as the builder methods return it carries the default tab width *)
+Lemma build_tab c ops st :
+  Forall builder_op ops -> build c ops = BOk st -> tab_sane st.
+Proof.
+  unfold build, build_idx. intros Hf. destruct (construct c) as [s0| |] eqn:E; cbn [snd]; try discriminate.
+  destruct (brun_idx 0 s0 ops) as [j r] eqn:Er. cbn [snd]. intros H; subst r.
+  unfold tab_sane. rewrite (brun_idx_tab _ _ _ _ _ Hf Er), (construct_tab _ _ E).
+  vm_compute. discriminate.
+Qed.
+
 Theorem accepted_renders c ops st :
-  build c ops = BOk st ->
+  Forall builder_op ops -> build c ops = BOk st ->
   forall sn tw O, snap_ok sn -> oracles_ok O -> render_outcome st sn tw O = Ok tt.
-Proof. intros Hb sn tw O Hsn HO. apply render_ok; [exact (build_ok _ _ _ Hb) | exact Hsn | exact HO]. Qed.
+Proof.
+  intros Hf Hb sn tw O Hsn HO.
+  apply render_ok; [exact (build_ok _ _ _ Hb) | exact (build_tab _ _ _ Hf Hb) | exact Hsn | exact HO].
+Qed.
+
+Theorem accepted_renders_any_tab c ops st :
+  build c ops = BOk st -> tab_sane st ->
+  forall sn tw O, snap_ok sn -> oracles_ok O -> render_outcome st sn tw O = Ok tt.
+Proof.
+  intros Hb Htab sn tw O Hsn HO.
+  apply render_ok; [exact (build_ok _ _ _ Hb) | exact Htab | exact Hsn | exact HO].
+Qed.
 
 Theorem accepted_draws c ops st :
-  build c ops = BOk st ->
+  build c ops = BOk st -> tab_sane st ->
   forall sn tw th n bottom O, snap_ok sn -> oracles_ok O ->
     tw < U16 -> th < U16 -> n + U16 <= USIZE_MAX ->
     exists n', draw_outcome st sn tw th n bottom O = Ok n'.
 Proof.
-  intros Hb sn tw th n bottom O Hsn HO Htw Hth Hn.
+  intros Hb Htab sn tw th n bottom O Hsn HO Htw Hth Hn.
   apply draw_ok; try assumption. exact (build_ok _ _ _ Hb).
+Qed.
+
+(** REFUTED beyond the known class [~ tab_sane]: a bar whose tab width exceeds isize::MAX
+    (ProgressBar::with_tab_width(usize::MAX)) and whose template holds a with_key key panics in
+    the draw (capacity overflow in TabRewriter::write_str) although every builder call succeeded. *)
+Definition huge_tab_ops : list bop := [OWithKey [99; 107]; OSetTab 18446744073709551615].
+Definition huge_tab_template : list N := [123; 99; 107; 125].      (* "{ck}" *)
+Definition plain_snap : snapshot := mksnap 0 (Some 3) 1 false (mkmt 1 1) (mkmt 0 0) false false.
+Definition plain_oracles : oracles :=
+  mkor (fun _ => mkmt 1 1) (fun _ => true) (fun c => mkfbar 0 false 0) (fun _ => 1) true [1].
+
+Theorem huge_tab_refuted :
+  exists st, build (CWithTemplate huge_tab_template) huge_tab_ops = BOk st
+    /\ StyleOK st /\ snap_ok plain_snap /\ oracles_ok plain_oracles
+    /\ render_outcome st plain_snap 80 plain_oracles = Panic SITE_TAB_REPEAT.
+Proof.
+  eexists. split; [vm_compute; reflexivity|].
+  split; [apply (build_ok (CWithTemplate huge_tab_template) huge_tab_ops); vm_compute; reflexivity|].
+  split; [split; vm_compute; discriminate|].
+  split; [intros i; vm_compute; discriminate|].
+  vm_compute. reflexivity.
 Qed.
 
 (** the public ProgressStyle::get_tick_str / get_final_tick_str on an accepted style: never a
